@@ -113,6 +113,7 @@ C06_legal_accepted(o) ==
         /\ c.title = ABSENT /\ c.body = ABSENT /\ c.epic = ABSENT /\ c.rsum = ABSENT /\ c.rpath = ABSENT
         /\ TransitionOK(cur.state, st) /\ ClaimRuleOK(st, eff) /\ ~(Needs(st) /\ cl = ""))
      => /\ o.exit = 0
+        /\ c.id \in DOMAIN o.post
         /\ o.post[c.id].state = st
         /\ o.post[c.id].claim = eff
 \* an accepted request leaves the task in the state it asked for
@@ -170,7 +171,7 @@ Strip(x, ids) == [Core(x) EXCEPT !.deps = @ \ ids, !.rdeps = @ \ ids]
 C09_exact(o) == o.cmd.name = "prune" /\ o.exit = 0 =>
                   /\ o.reply.pruned = SpecPruneSet(o.pre)
                   /\ DOMAIN o.post = DOMAIN o.pre \ SpecPruneSet(o.pre)
-                  /\ \A i \in DOMAIN o.post : Core(o.post[i]) = Strip(o.pre[i], SpecPruneSet(o.pre))
+                  /\ \A i \in DOMAIN o.post : i \in DOMAIN o.pre /\ Core(o.post[i]) = Strip(o.pre[i], SpecPruneSet(o.pre))
 C09_dryrun(o) == o.cmd.name = "prune_dry" /\ o.exit = 0 =>
                   /\ o.reply.pruned = SpecPruneSet(o.pre)
                   /\ o.post = o.pre /\ o.logpost = o.logpre
